@@ -204,6 +204,25 @@ class Gen(object):
         return 'def fn(%s):\n%s\n' % (', '.join(PARAMS), '\n'.join(body))
 
 
+def rename_to_gensym(src, rnd):
+    """Rename 1-4 variables / parameters of the program (in every role: parameter, assigned local,
+    loop / with target, operand) to names of the shape the transformer generates, tmp_1001..tmp_1009."""
+    tree = ast.parse(src)
+    used = sorted({n.id for n in ast.walk(tree) if isinstance(n, ast.Name) and n.id in PARAMS})
+    if not used:
+        used = PARAMS[:2]
+    k = min(len(used), rnd.randint(1, 4))
+    olds = rnd.sample(used, k)
+    news = rnd.sample(['tmp_%d' % i for i in range(1001, 1010)], k)
+    m = dict(zip(olds, news))
+    for n in ast.walk(tree):
+        if isinstance(n, ast.Name) and n.id in m:
+            n.id = m[n.id]
+        elif isinstance(n, ast.arg) and n.arg in m:
+            n.arg = m[n.arg]
+    return ast.unparse(tree) + '\n'
+
+
 # ------------------------------------------------------------------ configurations
 class SpecConfig(object):
     """Reference reading of a configuration, written from the documentation of anf.transform /
